@@ -7,7 +7,7 @@
 // are tasks of the simulator and every lock, channel operation and select in them is a scheduling
 // point decided by the schedule stream; in the burst and race strata every stub callback yields too.
 //
-// Strata (drawn first):
+// Strata (drawn first; one draw whose low three bits keep the former paced:burst:race = 3:2:3 choice, see run()):
 //   - paced: one harness task; after every event simrt.WaitIdle(), then the exact comparison.
 //   - burst: one harness task issues 2-45 events without waiting (a third of the bursts with the worker
 //     held inside a stub callback so that the observation queue overflows); subset relation only,
@@ -17,6 +17,13 @@
 //     Addrs/AddrsFor meanwhile; on purpose the pair's (local, observed) address first gets
 //     threshold-1 live observer groups. The schedule decides e.g. whether the closer runs between
 //     the worker's checks and its locked write. Subset relation at quiescence (and for the reader).
+//   - system (a quarter of the runs; system_test.go): no stubs — a real NATed host with real identify, real
+//     observers on real (simulated-wire) QUIC/WebTransport/TCP connections, and the oracle on what the HOST
+//     advertises (p2p/host/basic/addrs_manager.go) and sends in identify. See the header of system_test.go.
+//
+// The first three strata feed the Manager synthetic events over stub connections (all observation classes,
+// several observed addresses per listen address, cap and ordering); the system stratum has the real producers
+// and the real consumer but only the observations a NAT with one public IP produces.
 //
 // In every stratum the epilogue closes every connection and nothing may remain reported.
 //
@@ -96,7 +103,18 @@
 //	    (seeded change; needs check -> close + Disconnected -> locked write)           race stratum, also burst stratum once instrumented; missed by the
 //	                                                                                   former operation-level build whose goroutines ran free
 //
-// Missed: none. Not tried because equivalent: dropping the "same observation again" early return (remove + add nets to zero).
+// System stratum alone (C17_ONLY=system, VERIF_REPO worktree, 8 workers, 40 s; 2026-09-26):
+//
+//	addrs_manager.go: observed addresses appended without the threshold (Addrs(1) appended)   caught  C17/system/host-not-allowed/below-threshold (manager-* clean)
+//	addrs_manager.go: stale local address list kept when it shrinks                           caught  C17/system/host-not-allowed/closed-connection-counted (manager-* clean)
+//	manager.go: threshold lowered by one / ">" instead of ">="                                caught  C17/system/{manager,host}-not-allowed/below-threshold / -missing
+//	manager.go: observers grouped by /64 (seeded C17-2)                                       caught  C17/system/*-not-allowed/same-group-counted-twice (IPv6 runs)
+//	manager.go: connections re-keyed by remote address (seeded C17b-1)                        caught  C17/system/*-missing (two connections to one peer, one closes)
+//	manager.go: removal on close skipped                                                      caught  C17/system/*-not-allowed/closed-connection-counted
+//	manager.go: IsClosed guard moved out of the lock (M19)                                    MISSED by the system stratum alone (needs the drawn identify-vs-close
+//	                                                                                          race at threshold-1; caught by the race and burst strata)
+//
+// Missed: none overall. Not tried because equivalent: dropping the "same observation again" early return (remove + add nets to zero).
 // M1-M18 were re-run through the instrumented path (VERIF_REPO worktree, 4 workers, 12 s): all caught. In the
 // burst and race strata the <why> label is less specific (several counterfactuals can explain one address).
 package c17
@@ -104,6 +122,7 @@ package c17
 import (
 	"fmt"
 	"hash/fnv"
+	"os"
 	"sort"
 	"strings"
 	"sync/atomic"
@@ -412,7 +431,30 @@ func run(t *testing.T, tape *simrt.Tape) *common.Outcome {
 	g := simrt.Gen{S: tape.G}
 	o := &common.Outcome{}
 
-	stratum := g.Weighted(3, 2, 3) // stratum first: 0 paced, 1 burst, 2 race
+	// Stratum first. One draw: its low three bits choose paced | burst | race with weights 3:2:3 exactly as before the
+	// system stratum existed (Weighted(3,2,3) is "value mod 8"), bits 3-4 == 11 (a quarter of the tapes) select the system
+	// stratum instead; every other tape — and every minimised tape, whose values are small — keeps its meaning.
+	r := g.Int(1 << 30)
+	stratum := 0 // 0 paced, 1 burst, 2 race, 3 system
+	switch v := r % 8; {
+	case v >= 5:
+		stratum = 2
+	case v >= 3:
+		stratum = 1
+	}
+	if (r>>3)%4 == 3 {
+		stratum = 3
+	}
+	if only := os.Getenv("C17_ONLY"); only != "" { // sensitivity runs of a single stratum (never set by ./check)
+		for i, name := range []string{"paced", "burst", "race", "system"} {
+			if name == only {
+				stratum = i
+			}
+		}
+	}
+	if stratum == 3 {
+		return runSystem(t, tape, g, o)
+	}
 	burst, race := stratum == 1, stratum == 2
 	stubYield = stratum != 0
 	defer func() { stubYield = false }()
@@ -1278,21 +1320,4 @@ func firstLines(s string, n int) string {
 		l = l[:n]
 	}
 	return strings.Join(l, " | ")
-}
-
-// lazyOAM hands the host's address manager the real observedaddrs.Manager, which can only be built once the
-// swarm exists (simhost builds swarm and host in one call). Pure delegation.
-type lazyOAM struct{ m *observedaddrs.Manager }
-
-func (l *lazyOAM) Addrs(minObservers int) []ma.Multiaddr {
-	if l.m == nil {
-		return nil
-	}
-	return l.m.Addrs(minObservers)
-}
-func (l *lazyOAM) AddrsFor(local ma.Multiaddr) []ma.Multiaddr {
-	if l.m == nil {
-		return nil
-	}
-	return l.m.AddrsFor(local)
 }
